@@ -10,6 +10,7 @@ FLOOR = 253
 WEIGHTS_ALL = [400, 483, 562, 663, 703, 1000, 1250, 1999, 4000, 12345, 100000, 400000]
 
 EVIDENCE = dict(assumptions=[
+    'C07.g: one iteration of the HTLC loop of ChannelMonitorImpl::get_counterparty_output_claim_info (which HTLC outputs of a confirmed counterparty commitment get a claim, and of what shape); keys, cloning, the preimage map, the package constructors and the output vector are stubs',
     'kernel only: package.rs fee kernels (compute_fee_from_spent_amounts, feerate_bump, compute_package_feerate, compute_package_output); which outputs are claimed, script/consensus validity, anchor bumping with wallet inputs and the sweeper are outside the claim',
     'predicted transaction weight ranges over a stated finite set of concrete weights (the kernels divide by the weight; each weight is a separate linear query); input amounts <= 21e14 sat; the fee estimator returns an arbitrary u32',
     'previous feerate <= input_amounts*1000/weight (no earlier claim can have paid more than its inputs) and >= the 253 sat/kW floor'])
@@ -38,6 +39,7 @@ def run(S):
     package_feerate(S, D)
     locktime_and_output(S, D, W)
     merge(S, D)
+    counterparty_commitment_claims(S, D)
 
 
 def estimator(E):
@@ -245,3 +247,143 @@ def merge(S, D):
     S.prove('C07.f.refused_merge_changes_nothing', E, [z3.Not(can)], z3.And(z3.Not(ok), n_csh == a_csh, n_ht == a_ht, n_fr == a_fr, X.zint(n_in.n) == X.zint(a_in.n)),
             'a refused merge leaves the package untouched')
     S.no_panic('C07.f.nopanic', E, [], 'merge_package is total')
+
+
+def counterparty_commitment_claims(S, D):
+    """C07.g: ChannelMonitorImpl::get_counterparty_output_claim_info - which HTLC outputs of a (non-revoked)
+    counterparty commitment that hit the chain get a claim: one iteration of its HTLC loop from an arbitrary
+    loop-head state. Keys, cloning, the preimage map, the package constructors and the output vector are stubs."""
+    import re
+    ids = ['C07.g.claim_iff_claimable', 'C07.g.claim_shape', 'C07.g.corrupt_data_stops', 'C07.g.nopanic', 'C07.g.witness', 'C07.g.validate']
+    if all(S._skip(o) for o in ids):
+        return
+    f = S.fn('get_counterparty_output_claim_info')
+    E = S.engine(unwind=1)
+    mem = {}
+    args = []
+    for n, t in f.params:
+        args.append(E.sym('a%d' % n, t, mem) if (t.startswith('&') and '[' not in t) or t in ('u32', 'u64') or 'Txid' in t or t.startswith('Option<u32>') or t.startswith('std::option::Option<u32>') else X.Opaque('arg%d' % n))
+    run = X.FnRun(E, f, args, True, mem)
+    succ, rpo, back, encl = run.analyse_cfg()
+    head = None
+    for h in sorted({h for (u, h) in back}):
+        body = [b for b in rpo if h in encl[b]]
+        if any(f.blocks[b][1][0] == 'call' and 'CounterpartyOfferedHTLCOutput::build' in str(f.blocks[b][1][2]) for b in body):
+            head = h
+    if head is None:
+        raise X.Unsupported('HTLC claim loop not found in get_counterparty_output_claim_info')
+    pair = E.sym('entry', '&(ln::chan_utils::HTLCOutputInCommitment, std::option::Option<std::boxed::Box<ln::channelmanager::HTLCSource>>)', mem)
+    n_out, out_val = E.sym('tx.n_outputs', 'usize'), E.sym('tx.output_value_sat', 'u64')
+    E.assume(n_out.t <= 1 << 32)
+    known = z3.Bool('env.preimage_known')
+    built, pushed, pkgs = [], [], []
+
+    def deref(v, mem_):
+        while isinstance(v, X.Ref):
+            v = E.read_path(mem_[v.cell], v.path, mem_, True, 'spec')
+        return v
+
+    def amount_sat(v, mem_):
+        v = deref(v, mem_)
+        if getattr(v, 'base', None) == 'outamt':
+            return out_val.t
+        if isinstance(v, X.Adt) and 0 in v.fs and isinstance(v.fs[0], X.I):
+            return v.fs[0].t
+        if isinstance(v, X.I):
+            return v.t
+        if isinstance(v, X.Adt) and v.base is not None:
+            return E.sym(v.base + '.sat', 'u64').t
+        raise X.Unsupported('amount of %r' % (v,))
+
+    def h_index(E_, m, func, argv, guard, mem_, dty, caller):
+        E.panic(z3.And(X.zbool(guard), argv[1].t >= n_out.t), 'index out of bounds', caller.fn.name)
+        c = E.new_cell()
+        mem_[c] = X.Adt('TxOut', {0: X.Adt('Amount', {}, base='outamt')})
+        return X.Ref(c)
+
+    def h_amount_ne(E_, m, func, argv, guard, mem_, dty, caller):
+        r = amount_sat(argv[0], mem_) == amount_sat(argv[1], mem_)
+        return X.B(z3.Not(r) if m.group(1) == 'ne' else r)
+
+    def h_get(E_, m, func, argv, guard, mem_, dty, caller):
+        c = E.new_cell()
+        mem_[c] = X.Tup([X.Adt('PaymentPreimage', {}, base='the_preimage'), X.Opaque('claim details')])
+        return X.En('Option', z3.If(known, 1, 0), {1: [X.Ref(c)]})
+
+    def h_build(kind):
+        def h(E_, m, func, argv, guard, mem_, dty, caller):
+            built.append((X.zbool(guard), kind, [deref(a, mem_) for a in argv]))
+            return X.Adt(kind, {}, base='built%d' % len(built))
+        return h
+
+    def h_pkg(E_, m, func, argv, guard, mem_, dty, caller):
+        pkgs.append((X.zbool(guard), argv[0], argv[1], argv[2], argv[3]))
+        return X.Adt('PackageTemplate', {}, base='pkg%d' % len(pkgs))
+
+    def h_push(E_, m, func, argv, guard, mem_, dty, caller):
+        pushed.append((X.zbool(guard), argv[1]))
+        return X.UNIT
+    for rx, h in [
+        (r'slice::Iter<.*HTLCOutputInCommitment.*> as Iterator>::next$', lambda *a: X.En('Option', 1, {1: [pair]})),
+        (r'Vec::<(?:bitcoin::)?TxOut>::len$', lambda *a: n_out),
+        (r'Vec<(?:bitcoin::)?TxOut> as (?:std::ops::)?Index<usize>>::index$', h_index),
+        (r'Amount as PartialEq>::(eq|ne)$', h_amount_ne),
+        (r'HashMap::<.*PaymentHash.*>::get::<', h_get),
+        (r'(?:HTLCOutputInCommitment|ChannelTransactionParameters) as Clone>::clone$', lambda E_, m, func, argv, guard, mem_, dty, caller: deref(argv[0], mem_)),
+        (r'CounterpartyOfferedHTLCOutput::build$', h_build('CounterpartyOfferedHTLCOutput')),
+        (r'CounterpartyReceivedHTLCOutput::build$', h_build('CounterpartyReceivedHTLCOutput')),
+        (r'PackageTemplate::build_package$', h_pkg),
+        (r'Vec::<(?:package::)?PackageTemplate>::push$', h_push),
+    ]:
+        E.models.insert(0, (re.compile(rx), h))
+    E.depth += 1
+    rv, ret, m2 = run.run(start_bb=head)
+    E.depth -= 1
+    mem.update(m2)
+    cont = X.zbool(E.merge_mem(run.cut_states)[0]) if run.cut_states else z3.BoolVal(False)
+    returns = X.zbool(ret) if rv is not None else z3.BoolVal(False)
+    HO = D.struct_fields('HTLCOutputInCommitment')
+    hv = E.read_path(mem[pair.cell], (('f', 0, 'ln::chan_utils::HTLCOutputInCommitment'),), mem, True, 'spec')
+    rdh = lambda nm, ty: E.read_path(hv, (('f', HO.index(nm), ty),), mem, True, 'spec')
+    offered = X.zbool(rdh('offered', 'bool').t)          # offered BY THE COUNTERPARTY, i.e. inbound for us
+    cltv = rdh('cltv_expiry', 'u32').t
+    amt = rdh('amount_msat', 'u64').t
+    toi = rdh('transaction_output_index', 'Option<u32>')
+    has_idx = X.zint(toi.d) == 1
+    idx = E.en_payload(toi, 'Some', 1, 0, 'u32', mem, 'spec').t
+    consistent = z3.And(idx < n_out.t, out_val.t == amt / 1000)
+    n_push = sum([z3.If(g, 1, 0) for g, _ in pushed]) if pushed else z3.IntVal(0)
+    pre = [amt <= 21_000_000 * 100_000_000 * 1000, cltv < 500000000]
+    if len(pkgs) != 1 or len(pushed) != 1 or len(built) != 2:
+        raise X.Unsupported('unexpected loop body shape (%d build_package, %d push, %d output builders); %s' % (len(pkgs), len(pushed), len(built), [w for g_, w in E.unsupported][:3]))
+    g_pkg, p_txid, p_vout, p_data, p_height = pkgs[0]
+    claimable = z3.Or(z3.Not(offered), known)
+    b_off = [b_ for b_ in built if b_[1] == 'CounterpartyOfferedHTLCOutput'][0]
+    b_rcv = [b_ for b_ in built if b_[1] == 'CounterpartyReceivedHTLCOutput'][0]
+
+    def ident(v):
+        if getattr(v, 'alt', None) is not None:
+            c_, x, y = v.alt
+            return z3.If(X.zbool(c_), ident(x), ident(y))
+        return z3.Int('ident.' + (getattr(v, 'base', None) or 'unknown%d' % next(E.nfresh)))
+    txid_arg = [a for (n, t), a in zip(f.params, args) if 'Txid' in t][0]
+    kind_ok = z3.And(b_off[0] == z3.And(g_pkg, offered), b_rcv[0] == z3.And(g_pkg, z3.Not(offered)),
+                     z3.Implies(offered, z3.And(ident(b_off[2][2]) == ident(hv), ident(b_off[2][1]) == z3.Int('ident.the_preimage'))),
+                     z3.Implies(z3.Not(offered), ident(b_rcv[2][1]) == ident(hv)))
+    panic = z3.Or(*[X.zbool(p[0]) for p in E.panics]) if E.panics else False
+
+    def line_fn(v):
+        return '%d %d %d' % (v[0], v[1], v[2])
+    b = Binding('counterparty_claim_probe', [z3.If(has_idx, 1, 0), z3.If(offered, 1, 0), z3.If(known, 1, 0), z3.If(z3.Or(z3.Not(has_idx), consistent), 1, 0)], [z3.If(n_push == 1, 1, 0), z3.If(n_push == 1, p_height.t - cltv, 0), None],
+                line_fn=line_fn, which='oracle_tu', panic=panic, domain=[(0, 1), (0, 1), (0, 1), (1, 1)])
+    S.prove(ids[0], E, pre + [z3.Or(z3.Not(has_idx), consistent)], z3.And(cont, z3.Not(returns), n_push == z3.If(z3.And(has_idx, claimable), 1, 0)),
+            'after the counterparty\'s commitment confirms, an HTLC output gets a claim iff we can claim it: every HTLC we offered (timeout path) and every HTLC offered to us whose preimage we know; an inbound HTLC without preimage and a dust HTLC get none; the scan moves on either way',
+            [b], bounds='one loop iteration from an arbitrary loop-head state (any number of HTLCs), amounts <= 21e14 sat, expiries < 500000000')
+    S.prove(ids[1], E, pre + [has_idx, consistent, claimable],
+            z3.And(g_pkg, pushed[0][0], p_vout.t == idx, ident(p_txid) == ident(deref(txid_arg, mem)), p_height.t == cltv, kind_ok, ident(pushed[0][1]) == z3.Int('ident.pkg1')),
+            'the claim is for (commitment txid, the HTLC\'s output index), built from that HTLC - with the stored preimage when the counterparty offered it, as a timeout claim otherwise - and carries the HTLC\'s CLTV expiry as the height from which the counterparty can compete for the output', [b])
+    S.prove(ids[2], E, pre + [has_idx, z3.Not(consistent)], z3.And(returns, z3.Not(cont), n_push == 0),
+            'stored HTLC data that does not match the transaction stops the scan instead of claiming a wrong output', [])
+    S.no_panic(ids[3], E, pre, 'no out-of-bounds index, no unwrap of a missing preimage', [b])
+    S.witness(ids[4], E, pre + [has_idx, consistent, offered, known], cont)
+    S.validate(ids[5], E, b, n=4, extra_vectors=[(1, 1, 1, 1), (1, 1, 0, 1), (1, 0, 0, 1), (0, 1, 1, 1), (0, 0, 0, 1)])
